@@ -798,6 +798,10 @@ mod sync {
 
                     #[inline]
                     fn poll(self: Pin<&mut Self>, cx: &mut Context<'_>) -> Poll<Self::Output> {
+                        /* once interrupted, nothing more is taken from `task`, ready or not */
+                        if CATCH.load(Ordering::SeqCst) {
+                            return Poll::Ready(None)
+                        }
                         match unsafe {Pin::new_unchecked(&mut self.get_unchecked_mut().0)}.poll(cx) {
                             Poll::Ready(t) => Poll::Ready(Some(t)),
                             Poll::Pending  => if CATCH.load(Ordering::SeqCst) {
